@@ -67,6 +67,12 @@ CHECKS = {
     "C14": {"engine": "jlmon", "technique": _T + " + log-trace judge (short-circuit); none = not some and all/none duality laws; one-element-per-character monitor",
             "text": "Collections of every kind the statement names (literal arrays of expressions, computed arrays, strings incl. multi-byte, empty, null, other) x predicates x the three quantifiers; short-circuiting is observed through probes and poisons placed after the deciding element; duality laws are checked on the implementation alone.",
             "note": "Element expressions of a literal array after the deciding element may or may not be evaluated (optional lines; an error there is unjudged)."},
+    "C18": {"engine": "pylane", "technique": "runtime monitoring at the process boundary: real binary vs library-as-a-process differential monitor (exit status, stdout lines), chain law",
+            "text": "The real jsonlogic binary (debug and release, built from the working tree) is run thousands of times over valid, erroring, logging and malformed inputs in all three data-supply forms; a monitor compares exit status and stdout line by line with the same library reached through a different path (jlmon libcall), and pipes outputs into second invocations. The binary has no tests at all, and its contract is over all inputs and invocation forms.",
+            "note": "Operands that start with '-' are passed after '--' (option parsing is not part of the property); arguments above 100 KB go through stdin only; non-UTF-8 argv and a closed stdout are outside the stated domain."},
+    "C19": {"engine": "pylane", "technique": "runtime monitoring at the FFI boundary: real CPython extension in child interpreters vs library-as-a-process, type-exact value monitor, exception-type monitor, call-count monitor for supplied (de)serialisers",
+            "text": "The extension built from the working tree plus the working tree's __init__.py are driven in child interpreters through both entry points and every combination of omitted / supplied optional arguments; results are compared type-exactly with json.loads of the library's answer, every failure must be exactly ValueError, tagging wrappers verify the (de)serialisers are used exactly as specified, and a progress record makes an interpreter crash attributable.",
+            "note": "Python's own json module is trusted for the (de)serialisation half; objects are those json.loads can produce plus non-finite floats and big integers."},
 }
 
 NOT_APPLICABLE = {}
